@@ -158,6 +158,15 @@ fn tls_echo() -> RunResult {
     let skip_flush_c = sim::flip("client.close.without.flush", 1, 3);
     let skip_flush_s = sim::flip("server.close.without.flush", 1, 3);
     sim::log(|| format!("transports: client {} / server {}; close without a flush first: client {skip_flush_c} server {skip_flush_s}", if direct_a { "direct" } else { "adapter" }, if direct_b { "direct" } else { "adapter" }));
+    // An unbuffered transport needs what a socket has: room for one flight in each direction. With less,
+    // both TLS endpoints can legitimately be writing at once (e.g. the TLS 1.3 compatibility CCS record
+    // against the server's certificate flight) and block each other; that is the transport's deadlock.
+    if direct_a || direct_b {
+        for c in [&a.tx, &b.tx] {
+            let mut st = c.0.borrow_mut();
+            st.cap = st.cap.max(8192);
+        }
+    }
     let ta = if direct_a { Transport::Direct(a.clone().into()) } else { Transport::Adapter(Box::pin(AsyncStream::with_capacity(base_a, a.clone()))) };
     let tb = if direct_b { Transport::Direct(b.clone().into()) } else { Transport::Adapter(Box::pin(AsyncStream::with_capacity(base_b, b.clone()))) };
     let connector = if client_native { TlsConnector::from(m.native_client.clone()) } else { TlsConnector::from(m.rustls_client.clone()) };
